@@ -98,6 +98,7 @@ def run(ctx):
     """entry"""
     index = ctx.index
     ctx.section(_tokens, ctx, index)
+    ctx.section(_position, ctx, index)
     ctx.explanation = (
         "Def-use shape of the three values returned by parse_docstring_into_header_args_footer: each must be "
         "a plain slice of the input string at boundaries produced by _get_token_start_idx / "
@@ -233,3 +234,69 @@ def run(ctx):
     check_part(header, "header")
     check_part(middle, "args/returns")
     check_part(footer, "footer")
+
+
+def _position(ctx, index):
+    """
+    C15.position — the split points of a docstring are character POSITIONS. A loop that walks the pieces of
+    `S.split(sep)` / `S.splitlines()` and then asks `S.index(piece)` / `S.find(piece)` gets the position of the FIRST
+    piece with that text, not of the piece it is looking at: a header sentence that happens to read like a later
+    line (a prose line `Returns` above the `Returns` section title) moves the split point and header prose is cut.
+    Position must be carried (enumerate + running offset), not re-discovered by content. Zero such lookups exist
+    today; a built-in example keeps the recogniser honest.
+    """
+    from ..defuse import expand_aliases
+
+    def pieces_of(f_node, expander):
+        """{loop variable: name of the string whose split it iterates}"""
+        out = {}
+        for n in ast.walk(f_node):
+            if isinstance(n, (ast.For, ast.comprehension)):
+                it = expander(n.iter)
+                src = None
+                for c in ast.walk(it):
+                    if isinstance(c, ast.Call) and isinstance(c.func, ast.Attribute) and c.func.attr in ("split", "splitlines", "rsplit") and isinstance(c.func.value, ast.Name):
+                        src = c.func.value.id
+                if src is None:
+                    continue
+                for t in ast.walk(n.target):
+                    if isinstance(t, ast.Name):
+                        out[t.id] = src
+        return out
+
+    def lookups(f_node, pieces):
+        for n in ast.walk(f_node):
+            if (
+                isinstance(n, ast.Call)
+                and isinstance(n.func, ast.Attribute)
+                and n.func.attr in ("index", "find", "rindex", "rfind")
+                and isinstance(n.func.value, ast.Name)
+                and n.args
+                and isinstance(n.args[0], ast.Name)
+                and pieces.get(n.args[0].id) == n.func.value.id
+            ):
+                yield n
+
+    probe = ast.parse("def f(s):\n    ls = s.split('\\n')\n    for i, l in enumerate(ls[:-1]):\n        if l:\n            return s.index(l)\n").body[0]
+
+    class _P(object):
+        node = probe
+        params = ["s"]
+
+    ctx.need(len(list(lookups(probe, pieces_of(probe, lambda e: expand_aliases(_P, e))))) == 1, "the position recogniser disagrees with its own example")
+    n_loops = 0
+    for f in index.nontest_funcs():
+        if not (f.mod.name in ("cdd.shared.docstring_utils", "cdd.shared.docstring_parsers") or f.mod.name.startswith("cdd.docstring.")):
+            continue
+        pieces = pieces_of(f.node, lambda e, _f=f: expand_aliases(_f, e))
+        n_loops += len(pieces)
+        for n in lookups(f.node, pieces):
+            ctx.ob(
+                "C15.position",
+                f,
+                n,
+                False,
+                "`{}` looks a piece of `{}.split(...)` up by its TEXT: it finds the first piece that reads the same, not the one "
+                "the loop is at — an earlier prose line equal to (or containing) a later title moves the split point".format(short(n, 60), n.func.value.id),
+            )
+    ctx.count("loops_over_split_pieces_in_docstring_code", n_loops)
